@@ -42,7 +42,8 @@ def cmp_cases(rng, n):
         cy = rng.choice([math.floor(ty), math.ceil(ty), math.floor(ty) - 1, math.ceil(ty) + 1, ly, hy, rng.randint(ly, hy)])
         cy = max(ly, min(hy, cy))
         num = rng.choice([float(xv), float(xv) + float(Fraction(2) ** (-fxm[2])), float(xv) - 0.5, int(math.floor(xv)), int(math.floor(xv)) + 1, 0, rng.uniform(-4, 4)])
-        cases.append({'x': list(fxm), 'cx': cx, 'y': list(fym), 'cy': cy, 'num': num, 'array': rng.random() < 0.25, 'build': rng.choice(BUILDS)})
+        cases.append({'x': list(fxm), 'cx': cx, 'y': list(fym), 'cy': cy, 'num': num, 'array': rng.random() < 0.25, 'build': rng.choice(BUILDS),
+                      'array_op_method': rng.choice(['repr', 'repr', 'raw'])})     # (a configuration field of x: comparisons are about values in both settings)
     return cases
 
 def run_cmp(cases, res):
@@ -59,6 +60,7 @@ def run_cmp(cases, res):
                 x = build(fx, np, *fxm, c['cx'], how=c.get('build', 'raw')); y = A.mk(fx, np, *fym, c['cy'])
                 got = [bool(r) for r in (x < y, x <= y, x == y, x != y, x > y, x >= y)]
                 gotn = [bool(r) for r in (x < c['num'], x <= c['num'], x == c['num'], x != c['num'], x > c['num'], x >= c['num'])]
+            if c.get('array_op_method', 'repr') != 'repr': x.config.array_op_method = c['array_op_method']
             # the plain number on the LEFT (Python and NumPy numbers): k < x is x > k, etc.
             num = c['num']; gotl = {}
             for name, k in (('py', num), ('np.float64', np.float64(num)), ('np.int64', np.int64(num)) if isinstance(num, int) else ('np.float32', np.float32(num) if float(np.float32(num)) == float(num) else np.float64(num))):
